@@ -255,7 +255,7 @@ _make('vmfcacgmm', 300, 5000, max_N=25, max_K=4)
 # initializers
 # --------------------------------------------------------------------------
 
-@subcheck(SUBCHECKS, 'initializers_iid', quick=300, thorough=5000)
+@subcheck(SUBCHECKS, 'initializers_iid', quick=300, thorough=5000, fuzz=3000)
 def initializers_iid(d, ctx):
     from pb_bss.initializer import iid
     name = d.choice(['uniform_normalized', 'dirichlet_uniform', 'dirichlet',
@@ -283,7 +283,7 @@ def initializers_iid(d, ctx):
     ctx.label(name, f'pf={pf}', f'lead={len(lead)}')
 
 
-@subcheck(SUBCHECKS, 'initializer_flag', quick=300, thorough=5000)
+@subcheck(SUBCHECKS, 'initializer_flag', quick=300, thorough=5000, fuzz=3000)
 def initializer_flag(d, ctx):
     from pb_bss.initializer import deterministic
     lead = tuple(d.int(1, 3) for _ in range(d.int(0, 2)))
